@@ -1,9 +1,9 @@
-(* Obligation C20/normal_logpdf_closed_form.  Statement as printed by Coq from Inferno.C20.DistProofs; proof by reference.
+(* Obligation C20/normal_logpdf_closed_form.  Statement as printed by Coq from Inferno.C20.DistNormal; proof by reference.
    This file contains nothing else, so the statement cannot be weakened quietly. *)
 From Coq Require Import Reals List ZArith Bool.
 From Coquelicot Require Import Coquelicot.
 From Flocq Require Import Core.Raux.
-From Inferno Require Import Base.Num Base.NumR C20.Model C20.Spec C20.DistProofs.
+From Inferno Require Import Base.Num Base.NumR Gen.Distributions C20.Model C20.Spec C20.DistNormal.
 Import ListNotations.
 Open Scope R_scope.
 Theorem normal_logpdf_closed_form : forall (tau : R) (x loc : T RN) (scale : R),
@@ -11,5 +11,5 @@ Theorem normal_logpdf_closed_form : forall (tau : R) (x loc : T RN) (scale : R),
   0 < scale ->
   normal_logpdf RN tau x loc scale =
   - Rpower.ln scale - / 2 * (Rpower.ln tau + ((loc - x) / scale) ^ 2).
-Proof. exact (@Inferno.C20.DistProofs.normal_logpdf_closed_form). Qed.
+Proof. exact (@Inferno.C20.DistNormal.normal_logpdf_closed_form). Qed.
 Print Assumptions normal_logpdf_closed_form.
